@@ -23,7 +23,8 @@ TYPES = [
 ]
 FOLLOW = ('NumericQueryFilter', 'NQFDoMaskOp', 'ValueQueryFilter::Get', 'status_t', 'WhatCodeQueryFilter::Matches',
           'ValueExistsQueryFilter::Matches', 'muscleInRange', 'ThresholdMaxAux', 'MinimumThresholdQueryFilter::Matches',
-          'MaximumThresholdQueryFilter::Matches', 'XorQueryFilter::Matches', 'MultiQueryFilter::GetChildren', 'muscleMin')
+          'MaximumThresholdQueryFilter::Matches', 'XorQueryFilter::Matches', 'MultiQueryFilter::GetChildren', 'muscleMin',
+          'StringQueryFilter::MatchesString', 'StringQueryFilter::Matches', 'RawDataQueryFilter::Matches', 'NodeNameQueryFilter::Matches')
 _cache = {}
 
 PRE = r'''
@@ -57,7 +58,9 @@ def lower():
             roots += cxx2c.find_functions(L, record=cls, names=['Matches'])
         for cls in ('MinimumThresholdQueryFilter', 'MaximumThresholdQueryFilter', 'XorQueryFilter'):
             roots += cxx2c.find_functions(L, record=cls, names=['Matches'])
-        if len(roots) < 19:
+        roots += cxx2c.find_functions(L, record='StringQueryFilter', names=['Matches', 'MatchesString'])
+        roots += cxx2c.find_functions(L, record='RawDataQueryFilter', names=['Matches']) + cxx2c.find_functions(L, record='NodeNameQueryFilter', names=['Matches'])
+        if len(roots) < 23:
             raise cxx2c.Unsupported('only %d Matches functions found: extraction broke' % len(roots))
         L.lower_all(roots)
     finally:
@@ -161,6 +164,147 @@ def jobs(tier):
           '__CPROVER_assert(0, "MV_CANARY: end of harness reachable"); }\n' % wc)
     mk('qf_WhatCode_Matches', wc, c5, h5, replace=[CALLOP], functions=[(QF_CPP, 'WhatCodeQueryFilter::Matches')])
 
+
+    # --- StringQueryFilter::MatchesString: the 28-row operator table (QueryFilter.h), with String's comparison/search methods as
+    # ghost-backed stubs that also check WHICH string is the receiver and which the argument (the inverse operators swap them)
+    MS = find(L, r'^_ZNK6muscle17StringQueryFilter13MatchesStringERKNS_6StringE$')
+    SM = find(L, r'^_ZNK6muscle17StringQueryFilter7MatchesERNS_8ConstRefINS_7MessageEEEPKNS_8DataNodeE$')
+    S_ = '_ZNK6muscle6String'
+    sq_model = r"""
+struct String *mv_s, *mv_v;     /* ghost: the Message's string (nextValue) and the filter's operand (myValue) */
+int mv_cmp, mv_cmp_ic;          /* ghost: sign of the case-sensitive / case-insensitive comparison of nextValue with myValue */
+_Bool mv_sw, mv_ew, mv_sw_r, mv_ew_r, mv_sw_ic, mv_ew_ic, mv_sw_ic_r, mv_ew_ic_r, mv_dm;   /* prefix/suffix facts (r = roles swapped), wildcard outcome */
+int mv_ix, mv_ix_r, mv_ix_ic, mv_ix_ic_r;                                               /* IndexOf results */
+#define MV_FWD(a, b) ((a) == mv_s && (b) == mv_v)
+#define MV_REV(a, b) ((a) == mv_v && (b) == mv_s)
+#define MV_ROLE(a, b, what) __CPROVER_assert(MV_FWD(a, b) || MV_REV(a, b), what ": compares the Message's string with the filter's operand")
+#define MV_FWDONLY(a, b, what) __CPROVER_assert(MV_FWD(a, b), what ": nextValue OP myValue, in that order")
+_Bool %(S)seqERKS0_(struct String *a, struct String *b) { MV_FWDONLY(a, b, "=="); return mv_cmp == 0; }
+_Bool %(S)sltERKS0_(struct String *a, struct String *b) { MV_FWDONLY(a, b, "<"); return mv_cmp < 0; }
+_Bool %(S)sgtERKS0_(struct String *a, struct String *b) { MV_FWDONLY(a, b, ">"); return mv_cmp > 0; }
+_Bool %(S)sleERKS0_(struct String *a, struct String *b) { MV_FWDONLY(a, b, "<="); return mv_cmp <= 0; }
+_Bool %(S)sgeERKS0_(struct String *a, struct String *b) { MV_FWDONLY(a, b, ">="); return mv_cmp >= 0; }
+_Bool %(S)sneERKS0_(struct String *a, struct String *b) { MV_FWDONLY(a, b, "!="); return mv_cmp != 0; }
+_Bool %(S)s10StartsWithERKS0_(struct String *a, struct String *b) { MV_ROLE(a, b, "StartsWith"); return MV_FWD(a, b) ? mv_sw : mv_sw_r; }
+_Bool %(S)s8EndsWithERKS0_(struct String *a, struct String *b) { MV_ROLE(a, b, "EndsWith"); return MV_FWD(a, b) ? mv_ew : mv_ew_r; }
+int %(S)s7IndexOfERKS0_j(struct String *a, struct String *b, unsigned int from) { MV_ROLE(a, b, "IndexOf"); __CPROVER_assert(from == 0, "search from the start"); return MV_FWD(a, b) ? mv_ix : mv_ix_r; }
+_Bool %(S)s16EqualsIgnoreCaseERKS0_(struct String *a, struct String *b) { MV_FWDONLY(a, b, "EqualsIgnoreCase"); return mv_cmp_ic == 0; }
+int %(S)s19CompareToIgnoreCaseERKS0_(struct String *a, struct String *b) { MV_FWDONLY(a, b, "CompareToIgnoreCase"); return mv_cmp_ic; }
+_Bool %(S)s20StartsWithIgnoreCaseERKS0_(struct String *a, struct String *b) { MV_ROLE(a, b, "StartsWithIgnoreCase"); return MV_FWD(a, b) ? mv_sw_ic : mv_sw_ic_r; }
+_Bool %(S)s18EndsWithIgnoreCaseERKS0_(struct String *a, struct String *b) { MV_ROLE(a, b, "EndsWithIgnoreCase"); return MV_FWD(a, b) ? mv_ew_ic : mv_ew_ic_r; }
+int %(S)s17IndexOfIgnoreCaseERKS0_j(struct String *a, struct String *b, unsigned int from) { MV_ROLE(a, b, "IndexOfIgnoreCase"); __CPROVER_assert(from == 0, "search from the start"); return MV_FWD(a, b) ? mv_ix_ic : mv_ix_ic_r; }
+_Bool _ZNK6muscle17StringQueryFilter7DoMatchERKNS_6StringE(struct StringQueryFilter *this, struct String *s) { __CPROVER_assert(s == mv_s, "the wildcard matcher is given the Message's string"); return mv_dm; }
+/* documented table (QueryFilter.h, enum of StringQueryFilter): 0..5 relational, 6..8 prefix/suffix/infix, 9..11 their inverses,
+   12..23 the same twelve ignoring case, 24..27 wildcard / regular-expression matches; anything else never matches */
+#define MV_SQ_TABLE(op) ( \
+   (op) == 0 ? mv_cmp == 0 : (op) == 1 ? mv_cmp < 0 : (op) == 2 ? mv_cmp > 0 : (op) == 3 ? mv_cmp <= 0 : (op) == 4 ? mv_cmp >= 0 : (op) == 5 ? mv_cmp != 0 : \
+   (op) == 6 ? mv_sw : (op) == 7 ? mv_ew : (op) == 8 ? mv_ix >= 0 : (op) == 9 ? mv_sw_r : (op) == 10 ? mv_ew_r : (op) == 11 ? mv_ix_r >= 0 : \
+   (op) == 12 ? mv_cmp_ic == 0 : (op) == 13 ? mv_cmp_ic < 0 : (op) == 14 ? mv_cmp_ic > 0 : (op) == 15 ? mv_cmp_ic <= 0 : (op) == 16 ? mv_cmp_ic >= 0 : (op) == 17 ? mv_cmp_ic != 0 : \
+   (op) == 18 ? mv_sw_ic : (op) == 19 ? mv_ew_ic : (op) == 20 ? mv_ix_ic >= 0 : (op) == 21 ? mv_sw_ic_r : (op) == 22 ? mv_ew_ic_r : (op) == 23 ? mv_ix_ic_r >= 0 : \
+   ((op) >= 24 && (op) <= 27) ? mv_dm : 0)
+""" % dict(S=S_)
+    sq_ghosts = ('int c_, ci_, x1_, x2_, x3_, x4_; _Bool b1_, b2_, b3_, b4_, b5_, b6_, b7_, b8_, b9_; mv_cmp = c_; mv_cmp_ic = ci_; mv_ix = x1_; mv_ix_r = x2_; mv_ix_ic = x3_; mv_ix_ic_r = x4_; '
+                 'mv_sw = b1_; mv_ew = b2_; mv_sw_r = b3_; mv_ew_r = b4_; mv_sw_ic = b5_; mv_ew_ic = b6_; mv_sw_ic_r = b7_; mv_ew_ic_r = b8_; mv_dm = b9_;')
+    c6 = (sq_model +
+          '_Bool %s(struct StringQueryFilter *this, struct String *s)\n'
+          '__CPROVER_requires(__CPROVER_is_fresh(this, sizeof(*this)) && __CPROVER_is_fresh(s, sizeof(struct String)) && mv_s == s && mv_v == &this->_value)\n'
+          '__CPROVER_assigns()\n'
+          '__CPROVER_ensures(__CPROVER_return_value == MV_SQ_TABLE(this->_op))\n;\n' % MS)
+    h6 = ('\nvoid h_main(void) { %s struct String *a_, *b_; mv_s = a_; mv_v = b_; struct StringQueryFilter *f; struct String *s; %s(f, s); '
+          '__CPROVER_assert(0, "MV_CANARY: end of harness reachable"); }\n' % (sq_ghosts, MS))
+    mk('qf_String_MatchesString', MS, c6, h6, functions=[(QF_CPP, 'StringQueryFilter::MatchesString')])
+    # --- StringQueryFilter::Matches: one lookup with the filter's own field name and index, then the default rule
+    FS = '_ZNK6muscle7Message10FindStringERKNS_6StringEjPPS2_'
+    c7 = ('struct String mv_found_str; struct String *mv_ms_arg; _Bool mv_ms_ret;\n'
+          'struct status_t %s(struct Message *this, struct String *name, unsigned int index, struct String **out)\n'
+          '/* ASSUMED contract of Message::FindString: succeeds iff the item exists; then *out addresses it */\n'
+          '__CPROVER_requires((const void *)name == mv_expect_name && index == mv_expect_index && out != (struct String **)0)\n'
+          '__CPROVER_assigns(*out)\n'
+          '__CPROVER_ensures(ST_OK(__CPROVER_return_value) == mv_found && (!mv_found || *out == &mv_found_str))\n;\n'
+          'struct Message *%s(struct ConstRef_Message *this)\n__CPROVER_assigns()\n__CPROVER_ensures(1)\n;\n'
+          '_Bool %s(struct StringQueryFilter *this, struct String *s)\n'
+          '__CPROVER_requires(s == mv_ms_arg)\n__CPROVER_assigns()\n__CPROVER_ensures(__CPROVER_return_value == mv_ms_ret)\n;\n'
+          '_Bool %s(struct StringQueryFilter *this, struct ConstRef_Message *msg, struct DataNode *optNode)\n'
+          '__CPROVER_requires(__CPROVER_is_fresh(this, sizeof(*this)) && (this->_assumeDefault == 0 || this->_assumeDefault == 1))\n'
+          '__CPROVER_requires(mv_expect_name == (const void *)&((struct ValueQueryFilter *)this)->_fieldName && mv_expect_index == ((struct ValueQueryFilter *)this)->_index)\n'
+          '/* the string that is tested: the found item, else the assumed default (when there is one) */\n'
+          '__CPROVER_requires(mv_ms_arg == (mv_found ? &mv_found_str : &this->_default))\n'
+          '__CPROVER_assigns()\n'
+          '__CPROVER_ensures(__CPROVER_return_value == ((mv_found || this->_assumeDefault) ? mv_ms_ret : 0))\n;\n' % (FS, CALLOP, MS, SM))
+    h7 = ('\nvoid h_main(void) { const void *n_; unsigned int b_; _Bool f_, r_; struct String *a_; mv_expect_name = n_; mv_expect_index = b_; mv_found = f_; mv_ms_ret = r_; mv_ms_arg = a_;\n'
+          '  struct StringQueryFilter *f; struct ConstRef_Message *m; struct DataNode *d; %s(f, m, d); __CPROVER_assert(0, "MV_CANARY: end of harness reachable"); }\n' % SM)
+    mk('qf_String_Matches', SM, c7, h7, replace=[FS, CALLOP, MS], functions=[(QF_CPP, 'StringQueryFilter::Matches')])
+
+    # --- RawDataQueryFilter::Matches: byte-string comparison table over real (bounded) buffers; memcmp is cbmc's model
+    RD = find(L, r'^_ZNK6muscle18RawDataQueryFilter7MatchesE')
+    bl = 3 if tier == 'quick' else 4
+    BBCALL, GETBUF, GETNB, MEMMEM = ('_ZNK6muscle8ConstRefINS_10ByteBufferEEclEv', '_ZNK6muscle10ByteBuffer9GetBufferEv', '_ZNK6muscle10ByteBuffer11GetNumBytesEv', '_ZN6muscle6MemMemEPKhjS1_j')
+    rd_model = ('#define MV_BL %d\n' % bl + r"""
+struct RawDataQueryFilter *mv_f;                       /* ghost: the filter under test */
+unsigned char mv_h[MV_BL + 1], mv_m[MV_BL + 1];        /* ghost: nextValue (the Message's bytes, or the assumed default) and myValue */
+unsigned int mv_hn, mv_mn;                             /* their lengths */
+_Bool mv_has_def, mv_has_val, mv_m_null, mv_contains, mv_subset;
+struct ByteBuffer mv_def_bb, mv_val_bb; struct Message mv_the_message;
+struct Message *%(CALLOP)s(struct ConstRef_Message *this) { return &mv_the_message; }
+struct status_t %(FIND)s(struct Message *this, struct String *name, unsigned int tc, unsigned int index, void **data, unsigned int *nb)
+{
+   __CPROVER_assert(this == &mv_the_message && name == &((struct ValueQueryFilter *)mv_f)->_fieldName && tc == mv_f->_typeCode && index == ((struct ValueQueryFilter *)mv_f)->_index,
+                    "the lookup uses the filter's own field name, type code and value index");
+   struct status_t r; r._desc = "Data Not Found";
+   if (mv_found) { *data = (void *)mv_h; *nb = mv_hn; r._desc = (char *)0; }
+   return r;
+}
+struct ByteBuffer *%(BBCALL)s(struct ConstRef_ByteBuffer *this)
+{
+   __CPROVER_assert(this == &mv_f->_default || this == &mv_f->_value, "only the filter's own value and default are consulted");
+   return (this == &mv_f->_default) ? (mv_has_def ? &mv_def_bb : (struct ByteBuffer *)0) : (mv_has_val ? &mv_val_bb : (struct ByteBuffer *)0);
+}
+unsigned char *%(GETBUF)s(struct ByteBuffer *this) { return (this == &mv_def_bb) ? mv_h : (mv_m_null ? (unsigned char *)0 : mv_m); }
+unsigned int %(GETNB)s(struct ByteBuffer *this) { return (this == &mv_def_bb) ? mv_hn : mv_mn; }
+unsigned char *%(MEMMEM)s(unsigned char *in, unsigned int nin, unsigned char *what, unsigned int nwhat)
+{
+   _Bool fwd = (in == mv_h && nin == mv_hn && what == mv_m && nwhat == mv_mn), rev = (in == mv_m && nin == mv_mn && what == mv_h && nwhat == mv_hn);
+   __CPROVER_assert(fwd || rev, "MemMem() searches one whole value in the other whole value");
+   return ((fwd && !rev) ? mv_contains : (rev && !fwd) ? mv_subset : (mv_contains && mv_subset)) ? in : (unsigned char *)0;
+}
+/* ---- specification over the two byte strings H = mv_h[0..hn), M = mv_m[0..mn) ---- */
+static _Bool mv_pref_eq(unsigned int n) { for (unsigned int i = 0; i < MV_BL; i++) if (i < n && mv_h[i] != mv_m[i]) return 0; return 1; }
+static int mv_lex(void) { for (unsigned int i = 0; i < MV_BL; i++) if (i < mv_hn && i < mv_mn && mv_h[i] != mv_m[i]) return mv_h[i] < mv_m[i] ? -1 : 1; return 0; }
+static _Bool mv_h_ends_with_m(void) { if (mv_mn > mv_hn) return 0; for (unsigned int i = 0; i < MV_BL; i++) if (i < mv_mn && mv_m[i] != mv_h[mv_hn - mv_mn + i]) return 0; return 1; }
+static _Bool mv_m_ends_with_h(void) { if (mv_hn > mv_mn) return 0; for (unsigned int i = 0; i < MV_BL; i++) if (i < mv_hn && mv_h[i] != mv_m[mv_mn - mv_hn + i]) return 0; return 1; }
+/* documented (QueryFilter.h, RawDataQueryFilter): 0..5 relational on byte strings (lexicographic, a proper prefix is smaller), 6 nextValue starts with
+   myValue, 7 ends with, 8 contains, 9 myValue starts with nextValue, 10 ends with, 11 contains; no value to compare with, or nothing found and no default: false */
+#define MV_RD_TABLE(op) ( \
+   (op) == 0 ? (mv_hn == mv_mn && mv_pref_eq(mv_hn)) : (op) == 5 ? !(mv_hn == mv_mn && mv_pref_eq(mv_hn)) : \
+   (op) == 1 ? (mv_lex() < 0 || (mv_lex() == 0 && mv_hn < mv_mn)) : (op) == 2 ? (mv_lex() > 0 || (mv_lex() == 0 && mv_hn > mv_mn)) : \
+   (op) == 3 ? (mv_lex() < 0 || (mv_lex() == 0 && mv_hn <= mv_mn)) : (op) == 4 ? (mv_lex() > 0 || (mv_lex() == 0 && mv_hn >= mv_mn)) : \
+   (op) == 6 ? (mv_mn <= mv_hn && mv_pref_eq(mv_mn)) : (op) == 7 ? mv_h_ends_with_m() : (op) == 8 ? mv_contains : \
+   (op) == 9 ? (mv_hn <= mv_mn && mv_pref_eq(mv_hn)) : (op) == 10 ? mv_m_ends_with_h() : (op) == 11 ? mv_subset : 0)
+_Bool %(RD)s(struct RawDataQueryFilter *this, struct ConstRef_Message *msg, struct DataNode *optNode)
+__CPROVER_requires(__CPROVER_is_fresh(this, sizeof(*this)) && mv_f == this && mv_hn <= MV_BL && mv_mn <= MV_BL && (!mv_m_null || mv_mn == 0))
+__CPROVER_assigns()
+__CPROVER_ensures(__CPROVER_return_value == (((mv_found || mv_has_def) && mv_has_val && !mv_m_null) ? MV_RD_TABLE(this->_op) : 0))
+;
+""" % dict(CALLOP=CALLOP, FIND=FIND, BBCALL=BBCALL, GETBUF=GETBUF, GETNB=GETNB, MEMMEM=MEMMEM, RD=RD))
+    h8 = ('\nvoid h_main(void) { struct RawDataQueryFilter *g_; unsigned int a_, b_; _Bool f_, d_, v_, n_, c_, s_; mv_f = g_; mv_hn = a_; mv_mn = b_; mv_found = f_ ? 1 : 0; mv_has_def = d_ ? 1 : 0; mv_has_val = v_ ? 1 : 0; mv_m_null = n_ ? 1 : 0; mv_contains = c_ ? 1 : 0; mv_subset = s_ ? 1 : 0;   /* canonical bools: a nondet _Bool byte may be 0x08 */\n'
+          '  for (unsigned int i = 0; i < MV_BL + 1; i++) { unsigned char x_, y_; mv_h[i] = x_; mv_m[i] = y_; }\n'
+          '  struct RawDataQueryFilter *f; struct ConstRef_Message *m; struct DataNode *d; %s(f, m, d); __CPROVER_assert(0, "MV_CANARY: end of harness reachable"); }\n' % RD)
+    hdr, body = L.sliced([RD])
+    J.append(Job('qf_RawData_Matches', hdr + PRE + rd_model + '\n' + body + h8, 'h_main', enforce=[RD], loops=False, klass='bounded', unwind=bl + 3,
+                 bound='byte strings of at most %d bytes each (all contents); libc memcmp is cbmc\'s model; loops unwound with unwinding assertions' % bl,
+                 functions=[(QF_CPP, 'RawDataQueryFilter::Matches')], timeout=600, split=0))
+    # --- NodeNameQueryFilter::Matches: the node's name is what gets tested; no node, no match
+    NN = find(L, r'^_ZNK6muscle19NodeNameQueryFilter7MatchesE')
+    GNN = '_ZNK6muscle8DataNode11GetNodeNameEv'
+    c9 = ('struct String mv_node_name; struct String *mv_ms_arg; _Bool mv_ms_ret;\n'
+          'struct String *%s(struct DataNode *this)\n__CPROVER_requires(this != (struct DataNode *)0)\n__CPROVER_assigns()\n__CPROVER_ensures(__CPROVER_return_value == &mv_node_name)\n;\n'
+          '_Bool %s(struct StringQueryFilter *this, struct String *s)\n__CPROVER_requires(s == &mv_node_name)\n__CPROVER_assigns()\n__CPROVER_ensures(__CPROVER_return_value == mv_ms_ret)\n;\n'
+          '_Bool %s(struct NodeNameQueryFilter *this, struct ConstRef_Message *msg, struct DataNode *dataNode)\n'
+          '__CPROVER_requires(__CPROVER_is_fresh(this, sizeof(*this)))\n__CPROVER_assigns()\n'
+          '__CPROVER_ensures(__CPROVER_return_value == (dataNode != (struct DataNode *)0 && mv_ms_ret))\n;\n' % (GNN, MS, NN))
+    h9 = ('\nvoid h_main(void) { _Bool r_; mv_ms_ret = r_; struct NodeNameQueryFilter *f; struct ConstRef_Message *m; struct DataNode *d; %s(f, m, d); '
+          '__CPROVER_assert(0, "MV_CANARY: end of harness reachable"); }\n' % NN)
+    mk('qf_NodeName_Matches', NN, c9, h9, replace=[GNN, MS], functions=[(QF_CPP, 'NodeNameQueryFilter::Matches')])
     # --- combinators: MinimumThreshold (AND/OR), MaximumThreshold (NAND/NOR/NOT), Xor over a ghost list of children.
     # Children are opaque: child i is absent (NULL ref) or answers mv_child_match[i]; the stubs are ordinary C over those ghosts
     # (assumed behaviour of Queue<ConstQueryFilterRef>::GetNumItems/operator[] and ConstRef::operator()).
@@ -213,11 +357,11 @@ def meta(tier):
         trusted_base=['clang 14 AST', 'mv/cxx2c.py', 'cbmc 6.11.0 / goto-instrument --dfcc / minisat'],
         assumptions=['Message::FindData and ConstRef<Message>::operator() are opaque with the assumed contracts printed in props/c14.py (FindData: one lookup, succeeds iff the item exists, *data addresses the item)',
                      'floating point comparisons use CBMC\'s IEEE-754 model', 'layout of opaque base subobjects (RefCountable, String) is not modelled', 'single thread'],
-        assumed_contracts=['muscle::Message::FindData', 'muscle::ConstRef<Message>::operator()'],
-        dropped=['logging lowered to no-ops'], not_lowered=['SetFromArchive / SaveToArchive', 'expression parser',
-                                                            'StringQueryFilter, RawDataQueryFilter, MessageQueryFilter'],
+        assumed_contracts=['muscle::Message::FindData', 'muscle::Message::FindString', 'muscle::ConstRef<Message>::operator()', 'String comparison/search methods (ghost outcomes)', 'StringQueryFilter::DoMatch', 'MemMem', 'ByteBuffer::GetBuffer/GetNumBytes', 'ConstRef<ByteBuffer>::operator()', 'Queue<ConstQueryFilterRef> accessors', 'QueryFilter::Matches of children', 'DataNode::GetNodeName'],
+        dropped=['logging lowered to no-ops'], not_lowered=['SetFromArchive / SaveToArchive', 'expression parser', 'MessageQueryFilter, ChildCountQueryFilter', 'StringQueryFilter::DoMatch (wildcard / regex construction)'],
         explanation='Loop-free: every obligation is decided for all operand values, operators (all 256 byte values), mask operators and lookup outcomes. '
                     'Matches() is enforced with an empty frame (it may not modify anything) and against the documented default rule; the opaque FindData contract '
-                    'requires the lookup to use this filter\'s field name, type code and value index.',
+                    'requires the lookup to use this filter\'s field name, type code and value index. StringQueryFilter::MatchesString is checked against the documented 28-row table with String\'s methods as ghost-backed stubs that also check receiver/argument roles; '
+                    'RawDataQueryFilter::Matches against a byte-string specification over real bounded buffers; the combinators over a ghost list of children (bounded).',
         extra_coverage=dict(functions_lowered=len(L.order), opaque_blobs=L.blobs[:20]),
     )
